@@ -36,6 +36,11 @@ class Observer:
             res = fn()
         except BaseException as e:  # noqa
             exc = type(e).__name__
+            # a subclass of an allowed type (numpy's AxisError is both a ValueError and an IndexError) counts as that type
+            for base in (ValueError, TypeError, NotImplementedError, IndexError):
+                if isinstance(e, base) and exc not in ("ValueError", "TypeError", "NotImplementedError", "IndexError"):
+                    exc = base.__name__
+                    break
             self.last_exc = e
         evs = self.s.events(clear=True)
         after = _listing(self.s.work)
